@@ -129,7 +129,7 @@ var plans = map[string]*Plan{
 	},
 	"C16": {
 		Level:     "exploration",
-		Scenarios: []ScenPlan{{"ids", 6000, 40000}, {"sysxfer", 6000, 120000}, {"sysids", 4000, 60000}},
+		Scenarios: []ScenPlan{{"ids", 6000, 40000}, {"sysxfer", 6000, 120000}, {"sysids", 4000, 60000}, {"sysws", 3000, 40000}},
 		QuickWallS: 120, ThoroughWallS: 1500,
 		Rule:        "Scenario ids: the real RequestContextMiddleware, default/custom header names, features on/off, client-supplied values (empty, padded, long, unusual), 1-8 (thorough 8-64) concurrent tasks generating identifiers at one frozen virtual instant; pairwise distinctness, echo, handler-sees-what-client-gets. Scenario sysxfer: the same invariants on every exchange of the system-level transparency runs. Scenario sysids: every response path behind the real server (proxied, 401 custom-auth, 413 size_limit, 429 limiter, 503 no healthy backend / breaker open).",
 		Real:        sysReal, Stub: sysStub, Assumptions: commonAssumptions,
